@@ -364,7 +364,8 @@ def evidence_dtype_rule(ctx):
             a0 = n.args[0]
             if isinstance(a0, ast.Attribute) and isinstance(a0.value, ast.Attribute) and a0.value.attr == "history":
                 rebuilt[a0.attr] = any(k.arg == "dtype" for k in n.keywords)
-    ctx.floor("history series rebuilt into arrays for the returned evidence", len(rebuilt), 2)
+    if not rebuilt:
+        ctx.prove("C15.evid", sample.ident, loc_of(sample), "the returned evidence is not rebuilt from Python lists with asarray(..., xp)", trivial=True)
     narrowed = {}
     for series, call in history_appends(sample, repo, smc):
         if series in rebuilt and call.args:
